@@ -25,6 +25,49 @@ static std::vector<std::string> entries(const std::string& w)
     return split_on(w, '/');
 }
 
+// the option object behind a declared name, found by re-requesting it (same kind, no description) from each group in turn:
+// the group that does not hold it raises parser_error before touching anything
+template <typename F>
+static auto find_in_groups(nitro::options::parser& p, F f) -> decltype(&f(p.group()))
+{
+    try { return &f(p.group()); } catch (const nitro::options::parser_error&) {}
+    try { return &f(p.group("g1", "a group")); } catch (const nitro::options::parser_error&) {}
+    try { return &f(p.group("g2", "a group")); } catch (const nitro::options::parser_error&) {}
+    return nullptr;
+}
+
+// what the option OBJECTS say must be what the arguments object says
+static std::string objects_agree(const nitro::options::arguments& a, const std::vector<odecl>& os, const std::vector<mdecl>& ms,
+                                 const std::vector<tdecl>& ts, nitro::options::parser& p)
+{
+    for (auto& o : os)
+    {
+        auto* x = find_in_groups(p, [&](nitro::options::group& g) -> nitro::options::option& { return g.option(o.name); });
+        if (!x) return "option object not found";
+        std::string va, vx; bool ha = true, hx = true;
+        try { va = a.get(o.name); } catch (const nitro::except::exception&) { ha = false; }
+        try { vx = x->get(); } catch (const nitro::except::exception&) { hx = false; }
+        if (ha != hx || va != vx) return "option::get";
+        if (x->has_non_default() != a.provided(o.name)) return "option::has_non_default";
+    }
+    for (auto& o : ms)
+    {
+        auto* x = find_in_groups(p, [&](nitro::options::group& g) -> nitro::options::multi_option& { return g.multi_option(o.name); });
+        if (!x) return "multi_option object not found";
+        if (x->get_all() != a.get_all(o.name) || x->count() != a.count(o.name)) return "multi_option::get_all";
+        for (std::size_t k = 0; k < x->count(); k++) if (x->get(k) != a.get(o.name, k)) return "multi_option::get(i)";
+        if (x->has_non_default() != a.provided(o.name)) return "multi_option::has_non_default";
+    }
+    for (auto& o : ts)
+    {
+        auto* x = find_in_groups(p, [&](nitro::options::group& g) -> nitro::options::toggle& { return g.toggle(o.name); });
+        if (!x) return "toggle object not found";
+        if (x->given() != a.given(o.name)) return "toggle::given";
+        if (x->has_non_default() != a.provided(o.name)) return "toggle::has_non_default";
+    }
+    return "";
+}
+
 static std::string obs_ok(const nitro::options::arguments& a, const std::vector<odecl>& os, const std::vector<mdecl>& ms,
                           const std::vector<tdecl>& ts, nitro::options::parser& p, bool typed)
 {
@@ -108,7 +151,8 @@ static std::string obs_ok(const nitro::options::arguments& a, const std::vector<
         }
         if (first) r += ".";
     }
-    (void)p;
+    auto bad = objects_agree(a, os, ms, ts, p);
+    if (!bad.empty()) return "OK-INCONSISTENT " + bad;
     return r;
 }
 
